@@ -6,3 +6,12 @@
 pub fn unify_script(script: &str) -> String {
     crate::typechecker::TypeChecker::verif_c07_unify_script(script)
 }
+
+/// Parse and type check only (no lowering, no code generation): `Ok(())` if
+/// the type checker accepts the tree, the report otherwise.
+pub fn typecheck_only(
+    tree: crate::FileTree,
+    rt: &crate::Runtime<crate::NoCtx>,
+) -> Result<(), crate::RotoReport> {
+    tree.parse()?.typecheck(rt).map(|_| ())
+}
